@@ -16,10 +16,12 @@ import fw
 # The entries below are open observations reported to the integrator and awaiting a decision (fix: or KNOWN_FINDINGS).
 KNOWN_SIGNATURES = [
     # (property, oracle, regex on the case label, text)
-    ("C18", "framing_rejected", r"(^|:)(eof@\d+)$", "EOF chunk not last: chunks after the EOF chunk are still processed and the file reads Ok"),
+    ("C18", "framing_rejected", r"(^|:)(eof@\d+|eofswap\d+|eof_then_optional)$", "EOF chunk not last: chunks after the EOF chunk are still processed and the file reads Ok"),
     ("C18", "framing_rejected", r"\.compression=\d+$", "chunk header field `compression` != 0 is ignored (description: must always be 0)"),
     ("C18", "framing_rejected", r"hdr\.nv=\d+$|(^|:)drop\d+VERT$|VERT\.count=\d+$", "vertex spans that do not cover all n_verts vertices are accepted (n_verts_read_ is never compared with n_verts)"),
-    ("C06", "roundtrip", r"allzero_valence", "all faces (or all cells) of valence 0 are written as fixed valence 0 / encoding None, which the reader rejects"),
+    ("C06", "roundtrip", r"allzero_valence_cells", "all cells of valence 0 are written as fixed valence 0 / encoding None, which the reader rejects"),
+    ("C06", "no_crash_no_hang", r":emptystr_default$", "ovmb_write aborts (operator[] one past the end in WriteBuffer::write, n = 0) when a std::string property has the empty string as default"),
+    ("C06", "reencoding_same_mesh", r"^reenc:[^:]*(tet|hex)[^:]*:variable", "tetrahedral / hexahedral files in the variable-valence form (permitted by the description) are rejected with ErrorInvalidTopoType"),
 ]
 
 ENV = {"ASAN_OPTIONS": "detect_leaks=0:allocator_may_return_null=1", "UBSAN_OPTIONS": "halt_on_error=1"}
@@ -108,12 +110,36 @@ def strip_for_compare(lines, api):
         out.append(l)
     return out
 
+def is_big(data):
+    """a header declaring more than 2^22 entities of some kind (allocation of that size is outside what ASan can do in 2 s)"""
+    if len(data) < 48 or data[:8] != b"OVMB\n\r\n\xff": return False
+    return any(int.from_bytes(data[o:o + 8], "little") > (1 << 22) for o in (16, 24, 32, 40))
+
+def run_big(ctx, tag, cases):
+    """declared sizes that cannot be allocated: unsanitized build under `ulimit -v` (DESIGN 4.2); accepted outcomes are an error
+    result, a std::exception turned into OtherError, or Ok with a mesh that passes mesh_valid; crash / hang are violations"""
+    big = Cases()
+    for cid, c in cases.items.items():
+        if is_big(c["data"]): big.items[cid] = c
+    if not big.items: return {}
+    plain = fw.build_harness(ctx, "plain", "run_io")
+    if not plain: return {}
+    path = write_cases(ctx, tag + "-big", big.text())
+    rc, out, err = fw.sh(["bash", "-c", 'ulimit -v 4194304; exec "$0" "$@"', plain, "--nomesh", path], timeout=1500)
+    return parse_blocks(out)
+
 def compare_read(ctx, tag, cases, impl, model, oracles=()):
     """runs a batch on both sides; correspondence + impl-side oracles.  Returns (impl blocks, model blocks)."""
     if not cases.items: return {}, {}
-    path = write_cases(ctx, tag, cases.text())
+    bigb = run_big(ctx, tag, cases) if impl else {}
+    normal = Cases()
+    for cid, c in cases.items.items():
+        if not is_big(c["data"]): normal.items[cid] = c
+    path = write_cases(ctx, tag, normal.text())
     ib, rc, err = run_file(ctx, impl, path) if impl else ({}, 0, "")
     mb, rc2, err2 = run_file(ctx, model, path) if model else ({}, 0, "")
+    ib.update(bigb)
+    for cid in bigb: mb[cid] = ["result=BIG state=-"]
     ncmp = 0; ndiff = 0
     for cid, c in cases.items.items():
         il = ib.get(cid)
@@ -146,9 +172,8 @@ def compare_read(ctx, tag, cases, impl, model, oracles=()):
             continue
         if ml and ml[0].startswith("result=BIG"):
             # declared sizes beyond what can be allocated here: accepted outcomes are an error result or an exception
+            # (an Ok result is held to the same oracles as any other: mesh_valid ran in the harness, expectations above)
             ctx.stats["big"] += 1
-            if ires == "Ok":
-                ctx.violations.append(replay_record(ctx, c, cid, il, ml, "declared_size", "a file declaring more than 2^22 entities was read with result Ok"))
             continue
         ncmp += 1
         a, b = strip_for_compare(il, c["api"]), strip_for_compare(ml, c["api"])
@@ -163,7 +188,7 @@ def compare_read(ctx, tag, cases, impl, model, oracles=()):
                                               "model_says": b[first:first + 2] if first < len(b) else ["<missing>"]}})
         if c["spec"]:
             for l in ml:
-                if l.startswith("spec=") and l != "spec=same":
+                if l.startswith("spec=") and l != "spec=same" and not known(ctx.id, "reencoding_same_mesh", c["label"]):
                     ctx.broken.append({"kind": "correspondence", "name": "decode_spec vs decode_impl on a permitted re-encoding (%s)" % tag,
                                        "detail": {"case": c["label"], "model_says": l, "bytes_hex": c["data"].hex()[:4000]}})
     ctx.cov["evaluations"] += ncmp
@@ -438,9 +463,9 @@ def check_C06(ctx):
     ms = iogen.base_meshes(rng, not quick) + iogen.with_props(rng, not quick)
     # extra meshes for the writer side: all-zero valence (expected finding), pending deletions, explicit topology options
     extra = []
-    d = iogen.Desc("allzero_valence_faces"); iogen.Builder(d).v(2); d.F += [[], []]; extra.append(d)
+    # (faces of valence 0 are outside the kernel's contract: FaceHalfEdgeIter reads halfedges()[0]; cells of valence 0 are not)
     d = iogen.Desc("allzero_valence_cells"); b = iogen.Builder(d); v = b.v(3); b.hf((v[0], v[1], v[2])); d.C += [[], []]; extra.append(d)
-    d = iogen.Desc("somezero_valence"); b = iogen.Builder(d); v = b.v(3); b.hf((v[0], v[1], v[2])); d.F += [[]]; d.C += [[], [0]]; extra.append(d)
+    d = iogen.Desc("somezero_valence_cells"); b = iogen.Builder(d); v = b.v(3); b.hf((v[0], v[1], v[2])); d.C += [[], [0], []]; extra.append(d)
     for nm, line in (("pending_cell", "@DelC 0"), ("pending_vertex", "@DelV 0"), ("pending_face", "@DelF 1")):
         d = copy.deepcopy([m for m in ms if m.name == "tet2"][0]); d.name = nm; d.extra_k.append(line); extra.append(d)
     d = copy.deepcopy([m for m in ms if m.name == "tet2"][0]); d.name = "gc_done"; d.extra_k += ["@DelC 0", "GC"]; extra.append(d)
@@ -456,7 +481,11 @@ def check_C06(ctx):
             cid = "w_" + d.name
             il = ib.get(cid, [])
             if not il or il[0].startswith("!!"):
-                ctx.violations.append({"kind": "input", "oracle": "no_crash_no_hang", "what": "ovmb_write crashed", "case": cid, "script": iogen.write_case_text(d, cid)}); continue
+                lab = d.name + (":emptystr_default" if any(t == "s32" and df == b"" for (k, t, n, df, vals) in d.props) else "")
+                kn = known("C06", "no_crash_no_hang", lab)
+                if kn: ctx.known_hits[kn] += 1
+                else: ctx.violations.append({"kind": "input", "oracle": "no_crash_no_hang", "what": "ovmb_write crashed", "case": cid, "script": iogen.write_case_text(d, cid)})
+                continue
             for l in il:
                 if l.startswith("!O"):
                     k = known("C06", l.split()[1], d.name)
